@@ -68,11 +68,28 @@ structure FatUpd (fs : FsState) (c : Nat) (d d' : Dev) (arr' : Array Nat) : Prop
     d'.img.getByte q = d.img.getByte q
   /-- only the windows of the entry of `c` in the FAT copies change -/
   fine : ∀ q, ¬ FatEntryPos fs c q → d'.img.getByte q = d.img.getByte q
+  /-- the device write records: the new bytes of the entry window, once per FAT copy, first copy first -/
+  recs : ∃ bs : List Nat, bs.length = entWidth fs.fatType ∧
+    d'.log = recItems (mirrorRecs ((fatSliceOf fs).beginOff + entOff fs.fatType c) (fatSliceOf fs).size bs
+      (fatSliceOf fs).mirrors 0) ++ d.log ∧
+    d'.img = applyRecs d.img (mirrorRecs ((fatSliceOf fs).beginOff + entOff fs.fatType c) (fatSliceOf fs).size bs
+      (fatSliceOf fs).mirrors 0)
 
 theorem FatWrote.of_sameStore {fs : FsState} {d d1 d' : Dev} {o : Nat} {bs : List Nat} (hs : SameStore d d1)
     (h : FatWrote fs d1 d' o bs) : FatWrote fs d d' o bs :=
   ⟨(DevStep.of_sameStore hs).trans h.step, h.fs_eq.trans hs.fs, fun i hi => by rw [h.first i hi, hs.img],
-   fun q hq => by rw [h.frame q hq, hs.img], fun q hq => by rw [h.fine q hq, hs.img]⟩
+   fun q hq => by rw [h.frame q hq, hs.img], fun q hq => by rw [h.fine q hq, hs.img],
+   by rw [h.log, hs.log], by rw [h.img, hs.img]⟩
+
+theorem FatWrote.recs_of {fs : FsState} {c : Nat} {d d' : Dev} {o : Nat} {bs : List Nat} (h : FatWrote fs d d' o bs)
+    (ho : o = entOff fs.fatType c) (hl : bs.length = entWidth fs.fatType) :
+    ∃ bs : List Nat, bs.length = entWidth fs.fatType ∧
+      d'.log = recItems (mirrorRecs ((fatSliceOf fs).beginOff + entOff fs.fatType c) (fatSliceOf fs).size bs
+        (fatSliceOf fs).mirrors 0) ++ d.log ∧
+      d'.img = applyRecs d.img (mirrorRecs ((fatSliceOf fs).beginOff + entOff fs.fatType c) (fatSliceOf fs).size bs
+        (fatSliceOf fs).mirrors 0) := by
+  subst ho
+  exact ⟨bs, hl, h.log, h.img⟩
 
 /-- `FatTrait::set` at an entry of the table, on a volume already marked dirty -/
 theorem run_table_set (fs : FsState) (s : DiskSlice) (hs : IsFatSlice fs s) (c : Nat) (v : FatValue) (d : Dev)
@@ -101,7 +118,8 @@ theorem run_table_set (fs : FsState) (s : DiskSlice) (hs : IsFatSlice fs s) (c :
       (bytesLe16 (Table.rawOfValue .fat16 v % 65536)) (by simp [bytesLe16])
       (by show c * 2 + 2 ≤ s.size; rw [hsz]; omega) d hfa hcd hwf hg
     refine ⟨d1, _, _, h1, ⟨hb, hsz, hm, hvf⟩, ?_, hw1.step, hw1.fs_eq, fatArr_wrote16 _ _ hw1 (by show c * 2 + 2 ≤ _; omega), hw1.frame,
-      fun q hq => hw1.fine q (fun i hi h => hq ⟨i, hi, by rw [hft]; exact h.1, by rw [hft]; exact h.2⟩)⟩
+      fun q hq => hw1.fine q (fun i hi h => hq ⟨i, hi, by rw [hft]; exact h.1, by rw [hft]; exact h.2⟩),
+      FatWrote.recs_of hw1 (by rw [hft]; rfl) (by rw [hft]; rfl)⟩
     simp only [Fat.set, setRaw16, u32Lim, fatArr_size, rawOfValue_eq]
     rw [if_neg (by omega), if_neg (by omega)]
   | fat12 =>
@@ -127,7 +145,8 @@ theorem run_table_set (fs : FsState) (s : DiskSlice) (hs : IsFatSlice fs s) (c :
       (by rw [hs1.img]; exact hg)
     have hw := hw2.of_sameStore hs1
     refine ⟨d2, _, _, h2, ⟨hb, hsz, hm, hvf⟩, ?_, hw.step, hw.fs_eq, fatArr_wrote16 _ _ hw (by show c + c / 2 + 2 ≤ _; omega), hw.frame,
-      fun q hq => hw.fine q (fun i hi h => hq ⟨i, hi, by rw [hft]; exact h.1, by rw [hft]; exact h.2⟩)⟩
+      fun q hq => hw.fine q (fun i hi h => hq ⟨i, hi, by rw [hft]; exact h.1, by rw [hft]; exact h.2⟩),
+      FatWrote.recs_of hw (by rw [hft]; rfl) (by rw [hft]; rfl)⟩
     simp only [Fat.set, setRaw12, u32Lim, fatArr_size, rawOfValue_eq, pack12]
     rw [if_neg (by omega), if_neg (by omega), rd16_fatArr fs d.img _ (by omega), hb]
   | fat32 =>
@@ -154,7 +173,8 @@ theorem run_table_set (fs : FsState) (s : DiskSlice) (hs : IsFatSlice fs s) (c :
       (by rw [hs1.img]; exact hg)
     have hw := hw2.of_sameStore hs1
     refine ⟨d2, _, _, h2, ⟨hb, hsz, hm, hvf⟩, ?_, hw.step, hw.fs_eq, fatArr_wrote32 _ _ hw (by show c * 4 + 4 ≤ _; omega), hw.frame,
-      fun q hq => hw.fine q (fun i hi h => hq ⟨i, hi, by rw [hft]; exact h.1, by rw [hft]; exact h.2⟩)⟩
+      fun q hq => hw.fine q (fun i hi h => hq ⟨i, hi, by rw [hft]; exact h.1, by rw [hft]; exact h.2⟩),
+      FatWrote.recs_of hw (by rw [hft]; rfl) (by rw [hft]; rfl)⟩
     simp only [Fat.set, set32, getRaw32, setRaw32, u32Lim, fatArr_size, rawOfValue_eq, imgFatRaw]
     rw [if_neg (by omega), if_neg (by omega)]
     simp only
